@@ -22,6 +22,8 @@ Oracle (failing-input search, on the real code only, independent of the model):
   positive    jacobian(x) is neither negative nor NaN at every x where `_jacobian`'s guard holds (1e-9 relative
               margin), and it is not exactly 0 wherever the judged finite difference shows a derivative above
               the underflow threshold of doubles (1e-290).
+  finite      forward(x) is a finite number at every domain point where the exact transform is finite (finite_region:
+              e.g. LogSinh for every w > 0, Box-Cox while |lam ln(x+nu)| < 690, Manly while |lam x/xmax| < 690).
   monotone    ordered pairs x1 < x2 of domain points (neighbours and random pairs of the sorted inputs, across
               the junctions of BoxCox2sym and Yeo-Johnson): forward(x1) <= forward(x2) + the evaluation error.
   Softmax     rows n <= 6 with s <= 0.99: numpy.linalg.det of the finite-difference matrix of partial derivatives
@@ -162,6 +164,44 @@ def fwd_domain(cls, P, x):
     if cls == "Sinh":
         return abs((x - P["nu"]) * P["scale"]) < 1e300
     return True
+
+
+def finite_region(cls, P, x):
+    """domain points at which the EXACT forward is certainly a finite double (from the mathematics of each map, not
+    from how the code evaluates it): there a non-finite forward is a defect (an overflow inside the evaluation)"""
+    if not (fin(x) and fwd_domain(cls, P, x)):
+        return False
+
+    def pw(s, k):          # s^k representable with a margin
+        return s > 1e-300 and abs(k * math.log(s)) < 690
+    if cls in ("Identity", "Sinh"):
+        return True
+    if cls == "Logit":
+        lo = P["lower"]
+        d = math.exp(P["logdelta"])
+        return x - lo > 1e-290 * d and lo + d - x > 1e-290 * d
+    if cls in ("Log", "Reciprocal"):
+        return 1e-290 < (x + P["nu"]) < 1e290 and (cls != "Log" or P["bf"] != 0)
+    if cls in BOXCOX:
+        s = x + P["nu"]
+        return 1e-290 < s < 1e290 and (abs(P["lam"]) <= EPS or pw(s, P["lam"]))
+    if cls == "BoxCox2sym":
+        s, nu, lam = abs(x) + P["nu"], P["nu"], P["lam"]
+        if not 1e-290 < s < 1e290:
+            return False
+        return abs(lam) <= EPS and nu > 1e-290 or abs(lam) > EPS and pw(s, lam) and (nu == 0 or pw(nu, lam))
+    if cls == "YeoJohnson":
+        w, lam = P["nu"] + x * P["scale"], P["lam"]
+        if w >= EPS:
+            return abs(lam) <= 1e-8 or pw(1 + w, lam)
+        return abs(lam - 2) <= 1e-8 + 2e-5 or pw(1 - w, 2 - lam)
+    if cls == "LogSinh":
+        a, b = math.exp(P["loga"]), math.exp(P["logb"])
+        w = a + b * x / P["xmax"]
+        return 1e-290 < w < 1e290
+    if cls == "Manly":
+        return abs(P["lam"]) <= EPS or abs(P["lam"] * x / P["xmax"]) < 690
+    return False
 
 
 def length_scale(cls, P, x):
@@ -335,6 +375,10 @@ def tail_inputs(cls, P, rng, n):
         out = [sg * m / P["scale"] + P["nu"] for m in mags for sg in (1, -1)]
     elif cls == "YeoJohnson":
         out = [(sg * m - P["nu"]) / P["scale"] for m in mags for sg in (1, -1)]
+        for k, sg in ((P["lam"], 1), (2 - P["lam"], -1)):
+            if abs(k) > 1e-3:
+                out += [(sg * (math.exp(f * 690.0 / abs(k)) - 1) - P["nu"]) / P["scale"] for f in (0.5, 0.9, 0.99)
+                        if f * 690.0 / abs(k) < 690]
     elif cls == "Manly":
         xm = P["xmax"]
         if xm == xm:
@@ -345,13 +389,22 @@ def tail_inputs(cls, P, rng, n):
         nu = P["nu"]
         if nu == nu:
             out = [m - nu for m in mags] + [m - nu for m in small]
+            lam = P.get("lam", 0.0)
+            if cls in BOXCOX and lam == lam and abs(lam) > EPS:
+                # (x + nu)^lam close to the overflow / underflow of doubles while the exact transform is finite
+                out += [math.exp(sg * f * 690.0 / abs(lam)) - nu for f in (0.5, 0.9, 0.99) for sg in (1, -1)
+                        if f * 690.0 / abs(lam) < 690]
     elif cls == "BoxCox2sym":
         out = [sg * m for m in mags + small for sg in (1, -1)]
+        if abs(P["lam"]) > EPS and P["nu"] >= 0:
+            out += [sg * (math.exp(f * 690.0 / abs(P["lam"])) - P["nu"]) for f in (0.5, 0.9, 0.99) for sg in (1, -1)
+                    if f * 690.0 / abs(P["lam"]) < 690]
     elif cls == "LogSinh":
         xm = P["xmax"]
         if xm == xm:
             a, b = math.exp(P["loga"]), math.exp(P["logb"])
-            out = [(m - a) / b * xm for m in mags] + [(m - a) / b * xm for m in small]
+            mid = [10 ** rng.uniform(2.5, 4.5) for _ in range(4)] + [350.0, 709.0, 711.0, 750.0, 1500.0, 1e4]
+            out = [(m - a) / b * xm for m in mags + mid] + [(m - a) / b * xm for m in small]
     elif cls == "Logit":
         lo, d = P["lower"], math.exp(P["logdelta"])
         for k in (1, 3, 10, 20, 30):
@@ -374,7 +427,7 @@ def body(ctx):
     reqs, checks = [], []
     stats = {"elements": 0, "unconstrained": 0, "outside_domain_not_compared": 0, "guard_edge_not_compared": 0, "max_diff_over_bound": 0.0,
              "stencil_judged": 0, "stencil_not_judged": 0, "stencil_no_fit": 0, "positive_checked": 0,
-             "pairs_checked": 0, "pairs_across_junction": 0, "softmax_det_judged": 0, "softmax_det_not_judged": 0,
+             "pairs_checked": 0, "finite_checked": 0, "pairs_across_junction": 0, "softmax_det_judged": 0, "softmax_det_not_judged": 0,
              "softmax_pd_entries": 0, "max_rel_jac_vs_fd": 0.0}
 
     def call(o, op, arr):
@@ -405,6 +458,15 @@ def body(ctx):
             if st == "ok":
                 fv = np.asarray(fv, dtype=np.float64).ravel()
                 err = fwd_abs_err(np, cls, P, np.array(cand), fv)
+                jmap = {x: j for x, j in zip(xs, jvals)}
+                for x, f in zip(cand, fv):
+                    if finite_region(cls, P, x):
+                        stats["finite_checked"] += 1
+                        if not fin(float(f)):
+                            ctx.finding(f"{cls}/finite/forward",
+                                        f"{cls}.forward is not a finite number at a domain point where the exact transform is "
+                                        f"finite (overflow inside the evaluation)",
+                                        {**case0, "x": x, "forward": float(f)})
                 n = len(cand)
                 pairs = [(i, i + 1) for i in range(n - 1)] + [(i, i + 2) for i in range(n - 2)]
                 for _ in range(min(n, 12)):
@@ -420,6 +482,19 @@ def body(ctx):
                     if junction:
                         stats["pairs_across_junction"] += 1
                     slack = float(err[i]) + float(err[k])
+                    j1, j2 = jmap.get(cand[i], NAN), jmap.get(cand[k], NAN)
+                    if cls != "Logit" and not junction and f2 - f1 <= slack and fin(j1) and fin(j2) and j1 > 0 and j2 > 0 and \
+                            min(j1, j2) * (cand[k] - cand[i]) > 8 * slack and not (cls == "Log" and P["bf"] < 0) and \
+                            jac_domain(cls, P, cand[i]) not in (None, "u_squared_overflow") and \
+                            jac_domain(cls, P, cand[k]) not in (None, "u_squared_overflow") and \
+                            (cls != "BoxCox2sym" or cand[i] * cand[k] > 0):
+                        # the Jacobian is monotone between two points of one branch (every class but Logit), so the exact
+                        # images differ by at least min(j1, j2) (x2 - x1): far more than the evaluation error here
+                        ctx.finding(f"{cls}/monotone/equal_images",
+                                    f"{cls}.forward gives (nearly) equal images at two distinct domain points whose exact "
+                                    f"images differ by much more than the evaluation error",
+                                    {**case0, "x1": cand[i], "x2": cand[k], "forward1": f1, "forward2": f2, "slack": slack,
+                                     "lower_bound_of_exact_difference": min(j1, j2) * (cand[k] - cand[i])})
                     if f1 > f2 + slack:
                         tag = "base_below_one" if (cls == "Log" and P["bf"] < 0) else ("junction" if junction else "branch")
                         ctx.finding(f"{cls}/monotone/{tag}",
@@ -463,6 +538,13 @@ def body(ctx):
             D = (fv[:, 0] - 8 * fv[:, 1] + 8 * fv[:, 2] - fv[:, 3]) / (12 * hcol[:, 0])
             noise = (err[:, 0] + 8 * err[:, 1] + 8 * err[:, 2] + err[:, 3]) / (12 * hcol[:, 0])
         usable = exact & inb & np.isfinite(D) & np.isfinite(noise) & np.all(np.isfinite(fv), axis=1)
+        for r in np.nonzero(exact & inb & ~np.all(np.isfinite(fv), axis=1))[0][:50]:
+            if all(finite_region(cls, P, float(v)) for v in pts[r]):
+                ctx.finding(f"{cls}/finite/forward",
+                            f"{cls}.forward is not a finite number at a domain point where the exact transform is finite "
+                            f"(overflow inside the evaluation): the derivative cannot even be formed there",
+                            {**case0, "x": meta[r][0], "stencil": [float(v) for v in pts[r]],
+                             "forward_at_stencil": [float(v) for v in fv[r]], "jacobian": meta[r][1]})
         # group rows by x (rows of one x are contiguous, ladder order = smallest step first)
         i = 0
         nrows = len(meta)
@@ -718,6 +800,8 @@ def body(ctx):
                 for stp in cc.get("steps", [{}]):
                     o.setp(**stp.get("set", {}))
                     exercise(o, 14, note="corpus:" + f.name)
+                    if cc.get("xs"):
+                        exercise(o, 14, note="corpus:" + f.name + " pinned inputs", xs=[float(v) for v in cc["xs"]])
 
     # ---------------- scalar classes
     ncfg = ctx.scale(120, 600)
@@ -1072,6 +1156,7 @@ def body(ctx):
     ctx.extra["max_relative_difference_jacobian_vs_finite_difference"] = stats["max_rel_jac_vs_fd"]
     ctx.extra["positivity_points_checked"] = stats["positive_checked"]
     ctx.extra["ordered_pairs_checked"] = stats["pairs_checked"]
+    ctx.extra["forward_finite_points_checked"] = stats["finite_checked"]
     ctx.extra["ordered_pairs_across_a_junction"] = stats["pairs_across_junction"]
     ctx.extra["softmax_determinants_judged"] = stats["softmax_det_judged"]
     ctx.extra["softmax_determinants_not_judged"] = stats["softmax_det_not_judged"]
